@@ -8,9 +8,13 @@ import RwsDriver.Cors
 import RwsDriver.RangeM
 import RwsDriver.Pool
 import RwsDriver.Request
+import RwsDriver.Config
+import RwsDriver.Mime
+import RwsDriver.Json
+import RwsDriver.Query
 open RwsDriver
 
-def allOps : List (String × Op) := base64Ops ++ corsOps ++ rangeMOps ++ poolOps ++ requestOps
+def allOps : List (String × Op) := base64Ops ++ corsOps ++ rangeMOps ++ poolOps ++ requestOps ++ configOps ++ mimeOps ++ jsonOps ++ queryOps
 
 def runLine (line : String) : String :=
   match (line.trimAscii.toString.splitOn " ").filter (· ≠ "") with
